@@ -140,7 +140,7 @@ Section Nested.
       { rewrite forallb_forall in W3. rewrite Forall_forall in *. intros a Ha. apply Hpost; [exact Ha|apply W3; exact Ha]. }
       intros top rest g b k. cbn [events_c]. cbn [app ct_run ct_step].
       change ({| t_stack := ?x; t_gaslimit := ?y; t_started := ?z |}) with (st x y z). cbn [t_stack t_gaslimit t_started st].
-      set (new := CF (ci_typ i) (ci_from i) (Some (ci_to i)) (ci_input i) (ci_gas i) 0 [] ""%string [] [] (ci_value i)).
+      set (new := CF (ci_typ i) (ci_from i) (Some (ci_to i)) (ci_input i) (ci_gas i) 0 [] ""%string [] [] (ci_value i) []).
       change ({| o_frame := new; o_marker := 0 |}) with (of new 0).
       change ({| t_stack := of new 0 :: top :: rest; t_gaslimit := g; t_started := b |}) with (st (of new 0 :: top :: rest) g b).
       rewrite <- !app_assoc. rewrite (runs_aspects pre Fpre).
@@ -229,7 +229,7 @@ Definition events_call (x : txtree) : list tev :=
 Definition frame_call (x : txtree) : cframe :=
   process_output
     (CF (if x_create x then op_create else op_call) (x_from x) (Some (x_to x)) (x_input x) 0 0 [] ""%string
-        (map frame_c (x_body x)) (map frame_a (x_pre x) ++ map frame_a (x_post x)) (Some (x_value x)))
+        (map frame_c (x_body x)) (map frame_a (x_pre x) ++ map frame_a (x_post x)) (Some (x_value x)) [])
     (x_out x) (x_err x).
 
 Theorem ct_call_exact x :
@@ -413,7 +413,7 @@ Definition inv (s : tstate) : Prop := t_stack s <> [] /\ Forall okf (t_stack s).
 Lemma inv_init : inv t_init.
 Proof. split; [discriminate|]. repeat constructor. Qed.
 
-Lemma upd_bottom_inv stack f : (forall x, cf_jps (f x) = cf_jps x) -> stack <> [] -> Forall okf stack ->
+Lemma upd_bottom_inv' stack f : (forall x, cf_jps x <> [] -> cf_jps (f x) <> []) -> stack <> [] -> Forall okf stack ->
   upd_bottom stack f <> [] /\ Forall okf (upd_bottom stack f).
 Proof.
   intros Hf Hne Hok. unfold upd_bottom. destruct (rev stack) as [|b r] eqn:E.
@@ -422,8 +422,11 @@ Proof.
   assert (Hs : stack = rev r ++ [b]) by (rewrite <- (rev_involutive stack), E; reflexivity).
   rewrite Hs in Hok. apply Forall_app in Hok as [H1 H2]. apply Forall_app. split; [exact H1|].
   inversion H2 as [|? ? Hb _]; subst. constructor; [|constructor].
-  destruct Hb as [Hb|Hb]; [left; exact Hb|right; cbn; rewrite Hf; exact Hb].
+  destruct Hb as [Hb|Hb]; [left; exact Hb|right; cbn; apply Hf; exact Hb].
 Qed.
+Lemma upd_bottom_inv stack f : (forall x, cf_jps (f x) = cf_jps x) -> stack <> [] -> Forall okf stack ->
+  upd_bottom stack f <> [] /\ Forall okf (upd_bottom stack f).
+Proof. intros Hf. apply upd_bottom_inv'. intros x H. rewrite Hf. exact H. Qed.
 
 Lemma process_output_jps f out err : cf_jps (process_output f out err) = cf_jps f.
 Proof. destruct f; cbn. destruct err; [|reflexivity]. destruct (_ && _); reflexivity. Qed.
@@ -459,6 +462,12 @@ Proof.
   - destruct stack as [|top rest]; [contradiction|]. inversion Hok as [|? ? _ Hr]; subst.
     destruct (update_last_jp (cf_jps (o_frame top)) jp _) as [j fnd].
     eexists. split; [reflexivity|]. split; [discriminate|]. constructor; [left; reflexivity|exact Hr].
+  - destruct ot; [eexists; split; [reflexivity|split; assumption]|].
+    destruct stack as [|top rest]; [contradiction|]. inversion Hok as [|? ? Ht Hr]; subst.
+    eexists. split; [reflexivity|]. split; [discriminate|]. constructor; [|exact Hr].
+    destruct Ht as [Ht|Ht]; [left; exact Ht|right]. cbn [o_frame]. destruct (o_frame top); exact Ht.
+  - eexists. split; [reflexivity|]. apply upd_bottom_inv'; [|assumption|assumption].
+    intros x H. destruct x. cbn in H |- *. destruct jps; [contradiction|discriminate].
 Qed.
 
 Theorem ct_never_panics ot es : forall s, inv s -> exists s', ct_run ot s es = Ok s' /\ inv s'.
@@ -485,7 +494,8 @@ Section FlatNoPanic.
 
   Lemma ctf_step_inv s e : inv s -> exists s', ctf_step include_pre is_pre s e = Ok s' /\ inv s'.
   Proof.
-    intros Hs. destruct e; cbn [ctf_step]; try apply ct_step_inv; try exact Hs.
+    intros Hs. destruct e; cbn [ctf_step]; try apply ct_step_inv; try exact Hs;
+      try (exists s; split; [reflexivity|exact Hs]).
     destruct (ct_step_inv false s (TExit out used err) Hs) as (s1 & -> & H1).
     destruct include_pre; [exists s1; split; [reflexivity|exact H1]|]. apply flat_fixup_inv. exact H1.
   Qed.
